@@ -420,7 +420,7 @@ theorem parseLoopU_idem {relaxed : Bool} {f : Nat} {c c' : Cfg} (hf : c.buf.leng
   simp only [LoopSpec, hd, if_false, Cfg.ext_nil] at hx
   have hfu := parseLoopU_fuel (relaxed := relaxed) f (F + c.buf.length + 1) c hf (by omega)
   rw [parseLoopU_fuel F (F + c.buf.length + 1) c' hF (by omega)]
-  rcases hx.2 with heq | ⟨o, hbad⟩
+  rcases hx.2 with heq | ⟨_, o, hbad⟩
   · rw [← heq, ← hfu, h]
   · rw [← hfu, h] at hbad; simp at hbad
 
